@@ -546,6 +546,63 @@ def segsExitsOK (ex : List String) : List Seg → Abs → Bool
 def segsAllExitsOK (ex : List String) (segs : List Seg) : Bool :=
   segsExitsOK ex segs (Abs.start true) && segsExitsOK ex segs (Abs.start false)
 
+/-! ### the 'unshrunk' entry of a SHRUNK object (shrinker.py:86,103; read by `unshrink`, shrinker.py:133-154) -/
+
+/-- abstract view: the entry may be present (`p`) / may refer to an original that no longer corresponds to the
+    shrunk object (`s`) -/
+structure UnAbs where
+  p : Bool
+  s : Bool
+  deriving DecidableEq, Repr
+
+/-- every write to the content of the object (values, mask, derivatives, units — NOT the read-only flag, not a
+    content-preserving rebinding) makes a cached original obsolete; `clear` / `del …['unshrunk']` remove it -/
+def unEvent (e : Event) (u : UnAbs) : UnAbs :=
+  match e with
+  | .write _ .same => u
+  | .write .readonly _ => u
+  | .write _ _ => { u with s := u.s || u.p }
+  | .cacheClear => ⟨false, false⟩
+  | .cacheDel .unshrunk => ⟨false, false⟩
+  | .mayFill => { u with p := true }
+  | _ => u
+
+def unPath : List Event → UnAbs → UnAbs
+  | [], u => u
+  | e :: es, u => unPath es (unEvent e u)
+
+/-- the policy for 'unshrunk': whatever the path changes in the object, it drops the cached original afterwards -/
+def unOK (es : List Event) : Bool := !(unPath es ⟨true, false⟩).s
+
+/-- a shrunk object, concretely: a version stamp of its content (values, mask, derivatives, units), and the cached
+    original with the content it corresponded to when it was stored -/
+structure ShrunkSt where
+  next : Nat
+  content : Nat
+  hasRef : Bool
+  refContent : Nat
+  deriving DecidableEq, Repr
+
+def sExec (e : Event) (s : ShrunkSt) : ShrunkSt :=
+  match e with
+  | .write _ .same => s
+  | .write .readonly _ => s
+  | .write _ _ => { s with content := s.next, next := s.next + 1 }
+  | .cacheClear => { s with hasRef := false }
+  | .cacheDel .unshrunk => { s with hasRef := false }
+  | _ => s
+
+def sRun : List Event → ShrunkSt → ShrunkSt
+  | [], s => s
+  | e :: es, s => sRun es (sExec e s)
+
+/-- `s.unshrink(am)`: with the cache and an entry, the cached original (masked outside `am`); otherwise rebuilt from
+    the shrunk object itself -/
+def sUnshrink (en : Bool) (s : ShrunkSt) : Nat :=
+  match en && s.hasRef with
+  | true => s.refContent
+  | false => s.content
+
 /-! ### a shrunk object holds a reference to its original (known finding KF-C18-1) -/
 
 /-- `s = a.shrink(am)` (shrinker.py:93-104): a read-only COPY of the selected elements of `a` — the stamps of
